@@ -1088,7 +1088,8 @@ theorem waitAdd_waiting (m : Mem) (p n : Name) (e : Entry) :
     simp only [List.any_eq_true, Bool.and_eq_true, beq_iff_eq] at h
     obtain ⟨w, hw, _, h2⟩ := h
     simp only [isWaitingName, List.any_eq_true, beq_iff_eq]
-    exact ⟨w, hw, h2⟩
+    refine ⟨_, List.mem_map.mpr ⟨w, hw, rfl⟩, ?_⟩
+    split <;> exact h2
   · simp [isWaitingName]
 
 theorem deliver_disk (d : Disk) (m : Name) (r : LogRec) (tgt h : String) (i : Nat) (c : Cmp)
